@@ -113,12 +113,16 @@ fn get_node_cover_range_impl(
     let is_method_callee = node.kind() == SyntaxKind::FieldAccess
         && node.parent_kind() == Some(SyntaxKind::FuncCall)
         && node.prev_sibling().is_none();
+    // Redundant parentheses are dropped, but whether they are redundant depends on what
+    // precedes them ('not(1)' would become 'not1'): the enclosing node is selected instead.
+    let is_parenthesized = node.kind() == SyntaxKind::Parenthesized;
     (node_range.start <= range.start
         && node_range.end >= range.end
         && (is_document
             || !node.is::<Markup>()
                 && !is_blank
                 && !is_method_callee
+                && !is_parenthesized
                 && (node.is::<Expr>() || node.is::<Pattern>())))
     .then(|| (node.span(), mode))
     // It returns span to avoid problems with borrowing.
